@@ -35,6 +35,10 @@ Hazard(f, p, entry) ==
     [] f = "key-blob" /\ Cls(f, p) = "non-signer" /\ entry = "pem.DecodePEMPrivateKey" -> "checked-signer-assertion"
     [] f = "md-decode" /\ p.input = "struct-other" -> "checked-properties-assertion"
     [] f = "cfg-decode" /\ Cls(f, p) = "nil-ptr" -> "nil-pointer-check"
+    [] f \in {"dur-int", "dur-lit"} /\ MustReject(f, p) -> "duration-range-check"
+    [] f = "decode-target" /\ p.result \in {"nil", "squash-ptr", "squash-ptr-nested", "squash-nonstruct"}
+         -> "result-kind-check"
+    [] f = "cfg-decode" /\ p.target \in DecoderTargets -> "decoder-kind-check"
     [] f \in {"dur-tok", "dur-struct"} -> "index-in-range"
     [] f = "enc-header" /\ Cls(f, p) = "header-line-mutated" -> "header-line-checks"
     [] OTHER -> "none"
@@ -43,7 +47,8 @@ Outcomes(f, p, entry) ==
   LET h == Hazard(f, p, entry) IN
   IF <<entry, Cls(f, p)>> \in Misuse THEN {"panic"}
   ELSE IF h = "none" THEN {"ok", "error"}
-  ELSE IF h \in Dropped THEN (IF h = "five-year-bound" THEN {"hang"} ELSE {"panic"})
+  ELSE IF h \in Dropped THEN (IF h = "five-year-bound" THEN {"hang"} ELSE IF h = "duration-range-check" THEN {"ok"} ELSE {"panic"})
+  ELSE IF MustReject(f, p) THEN {"error"}
   ELSE {"error", "ok"}
 
 VARIABLES st, fam, par, ent, c
@@ -58,7 +63,8 @@ Init == /\ st = "pick"
 
 Call == /\ st = "pick"
         /\ \E o \in Outcomes(fam, par, ent) :
-             c' = CNext(c, [ev |-> "call", fam |-> fam, entry |-> ent, cls |-> Cls(fam, par), p |-> par, outcome |-> o])
+             c' = CNext(c, [ev |-> "call", fam |-> fam, entry |-> ent, cls |-> Cls(fam, par), p |-> par, outcome |-> o,
+                            got |-> IF Expect(fam, par) = "any" THEN "" ELSE Expect(fam, par)])
         /\ st' = "called"
         /\ UNCHANGED <<fam, par, ent>>
 
